@@ -409,7 +409,13 @@ def _vec_resize(ex, callee, argv):
     v = ex.load(argv[0])
     n = argv[1]
     if not n.conc():
-        raise Unsupported("Vec::resize to symbolic length")
+        # shrink to a symbolic length (CBC unpadding): one path per feasible length
+        t = ex.dom.term(n)
+        for k in range(len(v.f), -1, -1):
+            if ex.ctx.decide(t == ex.dom.lit(k, n.ty)):
+                del v.f[k:]
+                return UNIT
+        raise Unsupported("Vec::resize: symbolic length beyond the current length")
     if n.v <= len(v.f):
         del v.f[n.v:]
     else:
